@@ -1231,6 +1231,14 @@ class SyncInterpreter(BaseInterpreter[TContext, TEvent]):
                 #    nobody will ever stop.
                 if self.status == "stopped":
                     return
+                # 🚪 Likewise the child may have been unregistered before this
+                #    thread got to run: its invoking state was exited (or
+                #    re-entered, which registered a new child under the same
+                #    id), or `stopChild` addressed it. Stopping a child that
+                #    has not started yet is a no-op, so starting it now would
+                #    bring up an actor that nothing owns and nothing stops.
+                if self._actors.get(actor_id) is not child:
+                    return
                 # 🚀 Start the actor in the background thread.
                 child.start()
                 # 🔄 Keep the thread alive while the child runs.
